@@ -283,11 +283,17 @@ def load_corpus(cx):
 
 
 def corpus_file(path):
-    """{"schema": {"gen": [seed, idx]} | {"userord": kind}, "pairs": [[A-dump, B-dump], ...]}  (dumps as text, explicit nodes)"""
+    """{"schema": {"gen": [seed, idx]} | {"userord": kind} | {"hand": function of treegen}, "pairs": [[A-dump, B-dump], ...]}
+    (dumps as text, explicit nodes only: libyang adds the implicit ones)"""
     import random
     j = json.load(open(path))
     sj = j["schema"]
-    s = tg.userord_schema(sj["userord"]) if "userord" in sj else tg.gen_schema(random.Random(sj["gen"][0]), sj["gen"][1], **sj.get("kw", {}))
+    if "userord" in sj:
+        s = tg.userord_schema(sj["userord"])
+    elif "hand" in sj:
+        s = getattr(tg, sj["hand"])()
+    else:
+        s = tg.gen_schema(random.Random(sj["gen"][0]), sj["gen"][1], **sj.get("kw", {}))
     return [Case(s, tg.parse_dump(s, a), tg.parse_dump(s, b), "corpus") for a, b in j["pairs"]]
 
 
